@@ -135,13 +135,30 @@ def float_threshold_cases(rng, quick):
     return out
 
 
+def int_threshold_cases(rng, quick):
+    """Integer thresholds lying between two values of a narrow float dtype (float16 above 2048, float32 above 2**24)."""
+    out = []
+    for _ in range(60 if quick else 800):
+        dt = rng.choice(['float16', 'float16', 'float32'])
+        lo = 2048 if dt == 'float16' else 2 ** 24
+        step = rng.choice([2, 4]) if dt == 'float16' else rng.choice([2, 4])
+        start = lo * (step // 2) + step * rng.randint(0, 200)
+        vals = [start + step * rng.randint(0, 12) for _ in range(rng.randint(2, 7))]
+        arr = np.array(vals, dtype=dt)
+        t = int(rng.choice(vals)) + rng.choice([-1, 1, -1, 0]) * rng.randint(1, step - 1) if step > 1 else int(rng.choice(vals))
+        out.append((arr, t, rng.choice(['pyint', 'pyint', 'npint'])))
+    return out
+
+
 def float_threshold_oracle(arr, t, kind):
     from astrodendro import Dendrogram
     import fractions
-    mv = np.float64(t) if kind in ('np64', 'rounded') else t
+    mv = np.float64(t) if kind in ('np64', 'rounded') else (np.int64(t) if kind == 'npint' else t)
     d = Dendrogram.compute(arr.copy(), min_value=mv)
     lab = d.index_map.ravel()
     fails = []
+    if fractions.Fraction(float(d.params['min_value'])) != fractions.Fraction(t):
+        fails.append('recorded min_value %r is not the requested %r' % (d.params['min_value'], t))
     for i in range(arr.size):
         above = fractions.Fraction(float(arr[i])) > fractions.Fraction(float(d.params['min_value']))
         if above != (lab[i] >= 0):
@@ -157,7 +174,7 @@ _explore0 = explore
 def explore(ctx):
     _explore0(ctx)
     rng = ctx.rng('floatthr')
-    for arr, t, kind in float_threshold_cases(rng, ctx.quick):
+    for arr, t, kind in float_threshold_cases(rng, ctx.quick) + int_threshold_cases(rng, ctx.quick):
         try:
             fails = float_threshold_oracle(arr, t, kind)
         except Exception as e:
@@ -170,6 +187,4 @@ def explore(ctx):
 
 
 def matches_known(k, case, fails, extra):
-    if k['id'] == 'K6':
-        return case.get('stream') == 'float-threshold' and case.get('threshold_kind') == 'pyfloat'
     return False
